@@ -10,6 +10,14 @@ BASE = ("cd /repo && env -u TRACKLIB_VERIF_TRACE /venv/bin/python -m pytest -ra 
 
 # pid -> (module(s), technique, level text, level note, design ref)
 CHECKS = {
+    "C16": ("Simplify", "TLA+ acceptance predicate (subsequence, end points, exact distance-to-polyline bound) + transcriptions of "
+            "the Douglas-Peucker recursion and the Visvalingam elimination loop checked by TLC on every lattice track (pinned "
+            "variants refuted); outputs recorded from simplify() judged by SimplifyTrace.tla (code->spec)",
+            "every track of 2..4 (thorough 5) fixes of a 3x3 lattice (collinear runs, consecutive duplicates, revisits, closed "
+            "loops) x 5 tolerances and random tracks to 12 fixes x 10 tolerances are simplified for real in both modes: the "
+            "kept fixes must be a subsequence in order holding the first and last fix, DP must keep every input fix within "
+            "the tolerance of the simplified line (exact rational distances), and no call may raise.",
+            "TLC 1.8; integer coordinates, rational tolerances; fixes identified by hidden z / timestamp tags", "5/C16"),
     "C18": ("DTW", "TLA+ model: explicit enumeration of all monotone couplings (definition), Bellman recursion and a transcription "
             "of the T/M tables with back-pointers, checked by TLC for all small track pairs and three norms (pinned back-pointer "
             "encoding refuted); scores and matchings recorded from match(DTW|FDTW|FRECHET) / compare(FRECHET) judged by "
